@@ -6,13 +6,17 @@ HEAD=$(git -C /repo rev-parse HEAD)
 git -C $W checkout -q -f --detach $HEAD; git -C $W clean -fdq -e build
 cd $W
 DEMO=$(ls $D | grep -E "^demo.*\.py$" | head -1)
+# FULL=1: changes to headers need a full rebuild (setup.py does not track header dependencies)
+[ -n "$FULL" ] && rm -rf build librebound*.so
 /venv/bin/python setup.py build_ext --inplace -q >/dev/null 2>&1
 cp $D/$DEMO $W/_demo.py
 /venv/bin/python _demo.py >/tmp/confirm_demo0.log 2>&1; R0=$?
 git apply $D/patch.diff 2>/dev/null; A=$?
+[ -n "$FULL" ] && rm -rf build librebound*.so
 /venv/bin/python setup.py build_ext --inplace -q >/tmp/confirm_build.log 2>&1; B=$?
 SUITE=$(/venv/bin/python -m pytest -q -p no:cacheprovider --timeout=900 --continue-on-collection-errors 2>&1 | tail -1)
 /venv/bin/python _demo.py >/tmp/confirm_demo1.log 2>&1; R1=$?
 rm -f _demo.py
+[ -n "$FULL" ] && rm -rf build librebound*.so
 git checkout -q -f --detach $HEAD; git clean -fdq -e build
 echo "{\"dir\":\"$D\",\"demo\":\"$DEMO\",\"demo_unmodified_exit\":$R0,\"patch_applies\":$A,\"build\":$B,\"suite\":\"$SUITE\",\"demo_mutant_exit\":$R1}"
